@@ -92,6 +92,15 @@ def cases(rnd, quick):
             prog['handlers'][str(n + i)] = _h([nm], 0, {nm: ([['fire', {'name': nxt, 'prio': 0, 'flags': 0, 'ch': None}]] if nxt else [['ret', 1]])})
         yield prog, [['run', 1, 4]]
         yield prog, [['run', 1, 4], ['run', 1, 4]]
+    # a handler of the chain fails (with an Exception, or with an error that is not one): that is isolated, the loop
+    # goes on until the stop further down the chain, `stopped` is dispatched, run() returns
+    for exc, place, stopkind in itertools.product(['raise', 'raiseb'], ['started', 'x0', 'x1'], ['stopmgr', 'exit']):
+        prog = make_program('x2', stopkind, None, 'after', False, True)
+        for h in prog['handlers'].values():
+            if h['names'] == [place] and h['prio'] == 0:
+                h['script'][place] = h['script'][place] + [[exc]]
+        yield prog, [['run', 1, 4]]
+        yield prog, [['run', 1, 4], ['run', 1, 4]]
     # stop() called on a child component while the root runs: a manager that is not running -> no effect
     for code in (None, 3):
         prog = make_program('none', 'stopmgr', None, 'before', False, True)
